@@ -51,6 +51,10 @@ MUTANTS = [
     {"name": "revert-0430ca0-generator-mode-argument", "revert": "0430ca0", "props": ["C13"]},
     {"name": "revert-ca7b569-output-required-defaults", "revert": "ca7b569", "props": ["C13"]},
     {"name": "c13-additionalProperties-inverted", "props": ["C13"], "edits": [{"file": "utype/specs/json_schema/generator.py", "old": "                data.update(additionalProperties=addition)", "new": "                data.update(additionalProperties=not addition)"}]},
+    {"name": "revert-f7a9e05-typeless-schema-constraints", "revert": "f7a9e05", "props": ["C15"]},
+    {"name": "revert-a3b6a28-const-enum-typeless", "revert": "a3b6a28", "props": ["C15"]},
+    {"name": "c15-maximum-mapped-to-lt", "props": ["C15"], "edits": [{"file": "utype/specs/json_schema/constant.py", "old": "    'maximum': 'le',", "new": "    'maximum': 'ge',"}]},
+    {"name": "c15-uniqueItems-dropped", "props": ["C15"], "edits": [{"file": "utype/specs/json_schema/constant.py", "old": "    'uniqueItems': 'unique_items',\n", "new": ""}]},
     # ---- C01 ------------------------------------------------------------------------------
     {"name": "c01-seq-first-element-unconverted", "props": ["C01"], "edits": [{"file": R, "old": """                try:
                     result.append(
